@@ -165,10 +165,11 @@ func describe(tg *target, in []byte, seedName string, kinds []string, note strin
 	where := ""
 	if len(in) > 2048 {
 		h = h[:4096] + "..."
-		if dir := os.Getenv("VERIF_WORK"); dir != "" {
+		where = " (complete input_hex in the .trace.json saved next to the replay file)"
+		if dir := os.Getenv("VERIF_WORK"); dir != "" && os.Getenv("VERIF_KEEP_WORK") != "" {
 			p := filepath.Join(dir, fmt.Sprintf("c16-input-%s-%s.bin", tg.name, ci.SHA256))
 			if os.WriteFile(p, in, 0o644) == nil {
-				where = " full input written to " + p + " (and in the trace file)"
+				where += " and in " + p
 			}
 		}
 	}
